@@ -78,22 +78,20 @@ pub fn set_constructor(
         obj.set_property(size_key, JsValue::Number(0.0));
     }
 
-    // If an iterable (array) is passed, add its elements
-    if let Some(JsValue::Object(arr)) = args.first() {
-        let arr_ref = arr.borrow();
-        if let Some(elements) = arr_ref.array_elements() {
-            let items: Vec<JsValue> = elements.to_vec();
-            drop(arr_ref);
-
-            let size_key = PropertyKey::String(interp.intern("size"));
-            let mut set = set_obj.borrow_mut();
-            if let ExoticObject::Set { ref mut entries } = set.exotic {
-                for value in items {
-                    entries.insert(JsMapKey(value));
-                }
-                let len = entries.len();
-                set.set_property(size_key, JsValue::Number(len as f64));
+    // If an iterable is passed (an array, a string, a Set, a generator, ...), add its elements
+    let source = args.first().cloned().unwrap_or(JsValue::Undefined);
+    if !matches!(source, JsValue::Undefined | JsValue::Null) {
+        let Some(items) = interp.collect_iterator_values(&source)? else {
+            return Err(JsError::type_error("Set constructor argument is not iterable"));
+        };
+        let size_key = PropertyKey::String(interp.intern("size"));
+        let mut set = set_obj.borrow_mut();
+        if let ExoticObject::Set { ref mut entries } = set.exotic {
+            for value in items {
+                entries.insert(JsMapKey(value));
             }
+            let len = entries.len();
+            set.set_property(size_key, JsValue::Number(len as f64));
         }
     }
 
